@@ -69,10 +69,16 @@ def evaluate(ctx, recs, outs, env, stats):
         rep = cl.parse_coq(vals[3 * k])
         follow = cl.parse_coq(vals[3 * k + 1])
         pre = cl.parse_coq(vals[3 * k + 2])
-        stats["hypotheses_%s" % r.scn.kind] = "commit_pre=%s same_type=%s" % (pre[0], pre[1])
-        if not r.scn.is_upgrade and not (pre[0] and pre[1]):
-            common.corr_break(ctx, "Corr.CheckCommit.pre_check (the hypotheses commit_pre / same_type of the C04 / C05 theorems hold on the abstracted real pre-state)",
-                              {"input": {"scenario": r.scn.name}, "commit_pre_b": pre[0], "same_type_b": pre[1]})
+        # pre = (commit_pre, same_type, decl_swap_ok): non-upgrade commits satisfy the hypotheses of the same-type theorems,
+        # every commit (the upgrades too) those of the any-type theorems
+        p_pre, p_same, p_swap = pre
+        stats["hypotheses_%s" % r.scn.kind] = "commit_pre=%s same_type=%s decl_swap_ok=%s" % (p_pre, p_same, p_swap)
+        # (the pre-state of an `upgrade` command is not the pre-state of its commit: the staged inventory of the new type
+        #  is written by the command itself; there the two conjuncts of decl_swap_ok hold by construction of the abstraction -
+        #  version names are v<digits>, a directory listing has no name twice - and the model is compared at every position)
+        if not r.scn.is_upgrade and not (p_pre and p_same and p_swap):
+            common.corr_break(ctx, "Corr.CheckCommitUp.pre_check_any (the hypotheses commit_pre / same_type / decl_swap_ok of the C04 / C05 theorems hold on the abstracted real pre-state)",
+                              {"input": {"scenario": r.scn.name}, "commit_pre_b": p_pre, "same_type_b": p_same, "decl_swap_ok_b": p_swap})
         n = len(r.steps)
         pr = rep[4]
         pred[id(r)] = {"perm": rep[0], "trace": rep[1], "final": rep[2], "align": rep[3], "follow": follow,
@@ -183,7 +189,7 @@ def run(ctx):
     proof = common.proof_stage(ctx)
     tm["proof_stage"] = round(time.time() - t_, 1)
     common.build_rocfl_release()
-    ok, log = common.coq_make(["theories/Corr/CheckCommit.vo"])
+    ok, log = common.coq_make(["theories/Corr/CheckCommit.vo", "theories/Corr/CheckCommitUp.vo"])
     if not ok:
         raise common.BuildError("Corr/CheckCommit.v does not build:\n" + log[-3000:])
     env = st.rocfl_env(os.path.join(ctx.tmp, "home"))
